@@ -1153,6 +1153,33 @@ static int parse_set(vnacal_load_state_t *vlsp, yaml_node_t *node)
 		vcp->vc_filename, node->start_mark.line + 1);
 	return -1;
     }
+
+    /*
+     * Validate the dimensions against the type as in vnacal_new_alloc:
+     * at least 1x1, T types with rows <= columns, U and E types with
+     * rows >= columns.
+     */
+    {
+	bool valid = rows >= 1 && columns >= 1;
+
+	switch (type) {
+	case VNACAL_T8:
+	case VNACAL_TE10:
+	case VNACAL_T16:
+	    valid = valid && rows <= columns;
+	    break;
+	default:
+	    valid = valid && rows >= columns;
+	    break;
+	}
+	if (!valid) {
+	    _vnacal_error(vcp, VNAERR_SYNTAX,
+		    "%s (line %ld) error: invalid dimensions %d x %d for type %s",
+		    vcp->vc_filename, node->start_mark.line + 1,
+		    rows, columns, vnacal_type_to_name(type));
+	    return -1;
+	}
+    }
     _vnacal_layout(&vl, type, rows, columns);
     if ((calp = _vnacal_calibration_alloc(vcp, type, rows, columns,
 		    frequencies, VL_ERROR_TERMS(&vl))) == NULL) {
